@@ -19,7 +19,10 @@ from __future__ import annotations
 
 import itertools
 
-KINDS = ["func", "method", "classmethod", "staticmethod", "init", "lambda"]
+KINDS = ["func", "method", "classmethod", "staticmethod", "init", "lambda",
+         # constructor kinds: the object is really constructed; it carries the parameters in .r
+         "new", "new_inh1", "new_inh2", "init_inh1", "init_inh2", "new_init"]
+CTOR_KINDS = KINDS[6:]
 POS_LITERALS = [("1", "int"), ("'s'", "str"), ("2.0", "float"), ("b''", "bytes"), ("3j", "complex")]
 UNKNOWN = ["z", "y"]
 
@@ -178,6 +181,21 @@ def callee_text(kind, sig, k):
     return [f"class T{k}:", "  @staticmethod", f"  def m({P}):", f"    return {R}"], f"T{k}.m({{args}})"
   if kind == "init":
     return [f"class T{k}:", f"  def __init__(self{sp}):", f"    self.r = {R}"], f"T{k}({{args}}).r"
+  new_def = [f"  def __new__(cls{sp}):", "    o = object.__new__(cls)", f"    o.r = {R}", "    return o"]
+  init_def = [f"  def __init__(self{sp}):", f"    self.r = {R}"]
+  call = f"T{k}({{args}}).r"
+  if kind == "new":
+    return [f"class T{k}:"] + new_def, call
+  if kind == "new_init":
+    # both with the same signature; __new__ leaves its view in .rn, __init__ the one that is read
+    both = [f"  def __new__(cls{sp}):", "    o = object.__new__(cls)", f"    o.rn = {R}", "    return o"] + init_def
+    return [f"class T{k}:"] + both, call
+  if kind in ("new_inh1", "init_inh1"):
+    body = new_def if kind.startswith("new") else init_def
+    return [f"class B{k}:"] + body + [f"class T{k}(B{k}): pass"], call
+  if kind in ("new_inh2", "init_inh2"):
+    body = new_def if kind.startswith("new") else init_def
+    return [f"class B{k}:"] + body + [f"class I{k}(B{k}): pass", f"class T{k}(I{k}): pass"], call
   raise ValueError(kind)
 
 
